@@ -46,6 +46,36 @@ def detach_results(calc: Any) -> dict[str, Any]:
     return dict(results)
 
 
+def still_describes(remembered: dict[str, Any], results: dict[str, Any]) -> bool:
+    """
+    Whether every remembered entry is still among the calculator's results with the
+    same value. The calculator may meanwhile hold more (a property an observer asked
+    for), but what was remembered has not gone stale.
+
+    Parameters
+    ----------
+    remembered : dict[str, Any]
+        The results remembered earlier (e.g. `context.last_results`).
+    results : dict[str, Any]
+        The calculator's current results.
+
+    Returns
+    -------
+    bool
+        True if `remembered` is non-empty and agrees with `results` on all its keys.
+    """
+    if not remembered:
+        return False
+
+    try:
+        return all(
+            key in results and np.array_equal(value, results[key])
+            for key, value in remembered.items()
+        )
+    except (TypeError, ValueError):
+        return False
+
+
 class Context:
     """
     Abstract base class for Monte Carlo contexts. Contexts define the interface between
